@@ -26,6 +26,19 @@ class Sentinel:
         return self.name
 
 
+class Twin(Sentinel):
+    """Plain values that are equal, hash alike and have the same type but are different objects (as 0.0 and -0.0,
+    or two equal tuples, are): a call must still receive the very object it was given."""
+
+    __slots__ = ()
+
+    def __eq__(self, other):
+        return type(other) is Twin
+
+    def __hash__(self):
+        return 7
+
+
 class MyList(list):
     pass
 
@@ -40,7 +53,7 @@ class MyDict(dict):
 
 Pair = collections.namedtuple("Pair", "a b")
 
-ATOMS = {i: Sentinel(f"atom{i}") for i in range(1, 5)}
+ATOMS = {i: (Twin if i >= 3 else Sentinel)(f"atom{i}") for i in range(1, 5)}  # atoms 3 and 4 are twins
 VALS = {i: Sentinel(f"val{i}") for i in range(1, 6)}
 
 
@@ -75,6 +88,8 @@ def random_term(rng, depth, natoms=4, nnodes=6):
         return dict(rng.choice(L))
     kind = rng.choice(["list", "tuple", "sub", "set", "dict", "list", "tuple"])
     w = rng.randint(0, 3)
+    if kind in ("set", "dict"):
+        L = [x for x in L if not (x["k"] == "atom" and x["i"] == 4)]  # twins are equal: never both in one set / as keys of one dict
     if kind == "set":
         return Tm("set", 0, [dict(x) for x in rng.sample(L, min(w, len(L)))])
     if kind == "dict":
